@@ -236,11 +236,107 @@ def check_C12(ctx):
     ctx.assume("a dying sender closes both ends of its per-message socketpair (kernel), so the follow-up read returns 0")
 
 
+LEVEL["C09"] = ("Decides the structural clause of C09 only: every sendmsg/send result is checked and a non-positive result becomes Err(errno) (SEND-CHECK); in the platform "
+                "send no Err edge reaches Ok or is dropped -- it is returned, or it is the guarded ENOBUFS retry (SEND-PROP); the ipc layer returns the platform result "
+                "(RESULT-USED). Not decided: that the kernel reports EPIPE/ECONNRESET promptly; receivers in transit; SIGPIPE (not raised on SEQPACKET sockets: checked once by experiment).")
+
+
+def check_C09(ctx):
+    for cfg, F in ctx.configs(["K1", "K2"]):
+        send.rule_send_check(ctx, cfg, F)
+        ctx.rule("SEND-CHECK").floor("transmission_calls[%s]" % cfg, 2, cfg)
+        send.rules_send_flow(ctx, cfg, F, "C09")
+        ctx.rule("SEND-PROP").floor("fallible_calls[%s]" % cfg, 4, cfg)
+    for cfg, F in ctx.configs(["K1", "K3"]):
+        _result_used(ctx, cfg, F)
+    ctx.assume("Linux does not raise SIGPIPE for send on a SOCK_SEQPACKET socket whose peer is closed (EPIPE is returned)")
+
+
+def _result_used(ctx, cfg, F):
+    from vlib.flow import Tracer
+    from vlib.mir import callee_name, strip_generics
+    R = ctx.rule("RESULT-USED", "at the ipc layer the result of the platform send flows into the caller's return value; in-process: the crossbeam send error is mapped and returned")
+    n = 0
+    for f in sorted(F.fns.values(), key=lambda x: x.path):
+        if not (f.path.startswith("ipc::") or f.path.startswith("platform::inprocess::OsIpcSender::send")):
+            continue
+        for b, t in f.calls():
+            nm = strip_generics(callee_name(t))
+            if (nm.endswith("::OsIpcSender::send") and f.path.startswith("ipc::")) or (nm == "crossbeam_channel::Sender::send" and "inprocess::OsIpcSender::send" in f.path):
+                n += 1
+                tr = Tracer(f)
+                ok = any(r.kind == "call" and r.block == b for r in tr.roots(0)) or any(r.kind == "call" and r.block == b for r in tr.roots(0, (("f", 0, ""),)))
+                if ok:
+                    R.ok("%s returns the result of %s" % (f.path, nm), f.loc(b), cfg)
+                else:
+                    R.violate("%s:send-result-dropped" % strip_generics(f.path), "%s does not return the result of %s: a failed send would be reported as success" % (f.path, nm), f.path, f.loc(b), config=cfg)
+    R.count("send_sites[%s]" % cfg, n)
+
+
+LEVEL["C13"] = ("Decides the loop-invariant clauses of C13 only: a transmission is re-attempted only for Errno(ENOBUFS) after a successful downsize (RETRY-GUARD); the byte position "
+                "advances only on success (RETRY-POS); the estimate only shrinks and Ok from downsize needs sent > threshold (RETRY-SHRINK); every (re)try of the first fragment "
+                "carries the whole descriptor list (RETRY-FDS) within the receiver's capacity (FD-BOUND); slices are contiguous (FRAG-CONTIG). Not decided: the 2^10 fault patterns "
+                "as executions; that smaller packets are accepted by the kernel.")
+
+
+def check_C13(ctx):
+    for cfg, F in ctx.configs(["K1", "K2"]):
+        send.rules_send_flow(ctx, cfg, F, "C13")
+        ctx.rule("RETRY-GUARD").floor("retry_edges[%s]" % cfg, 2, cfg)
+        send.rule_retry_shrink(ctx, cfg, F)
+        ctx.rule("RETRY-SHRINK").floor("downsize_calls[%s]" % cfg, 2, cfg)
+        send.rule_retry_fds(ctx, cfg, F)
+        ctx.rule("RETRY-FDS").floor("first_fragment_sites[%s]" % cfg, 2, cfg)
+        send.rule_fd_bound(ctx, cfg, F)
+    ctx.assume("the receiver always offers full-size buffers, so smaller fragments fit (C01 not-decided clause)")
+
+
+LEVEL["C02"] = ("Decides the routing-discipline clause of C02 only: follow-up fragments travel exclusively on a socketpair created for that one message, whose receiving end "
+                "rides in the first packet and is the only descriptor follow-ups are read from (FRAG-ROUTE); it is the last descriptor on both sides (DEDICATED-LAST); "
+                "header, first data and all rights leave in one sendmsg (ONE-PACKET); the in-process send is one queue push (ONE-QUEUE-PUSH); receivers are not Clone. "
+                "Not decided: kernel FIFO/packet atomicity (trusted), exactly-once and ordering as observed over schedules.")
+
+
+def check_C02(ctx):
+    for cfg, F in ctx.configs(["K1", "K2"]):
+        send.rule_frag_route(ctx, cfg, F)
+        ctx.rule("FRAG-ROUTE").floor("channel_calls[%s]" % cfg, 1, cfg)
+        ctx.rule("FRAG-ROUTE").floor("followup_sites[%s]" % cfg, 1, cfg)
+        ctx.rule("FRAG-ROUTE").floor("followup_reads[%s]" % cfg, 1, cfg)
+        send.rule_dedicated_last(ctx, cfg, F)
+        ctx.rule("DEDICATED-LAST").floor("dedicated_pushes[%s]" % cfg, 1, cfg)
+        ctx.rule("DEDICATED-LAST").floor("pops[%s]" % cfg, 1, cfg)
+        send.rule_one_packet(ctx, cfg, F)
+    for cfg, F in ctx.configs(["K3"]):
+        send.rule_inproc_one_push(ctx, cfg, F)
+    for cfg, F in ctx.configs(["K1", "K3"]):
+        _no_clone_receiver(ctx, cfg, F)
+    ctx.assume("SOCK_SEQPACKET keeps packet boundaries and per-socket FIFO order; crossbeam unbounded channels are FIFO")
+
+
+def _no_clone_receiver(ctx, cfg, F):
+    R = ctx.rule("RX-NOT-CLONE", "receivers (typed, bytes, opaque, platform) implement neither Clone nor Copy: a channel has a single consumer")
+    for adt in ("ipc::IpcReceiver", "ipc::IpcBytesReceiver", "ipc::OpaqueIpcReceiver", "platform::unix::OsIpcReceiver", "platform::inprocess::OsIpcReceiver"):
+        if adt not in F.adts:
+            continue
+        if F.has_impl(adt, "std::clone::Clone") or F.has_impl(adt, "std::marker::Copy"):
+            R.violate("%s:clone" % adt, "%s implements Clone/Copy: two consumers could split one message stream" % adt, adt, config=cfg)
+        else:
+            R.ok("%s is not Clone" % adt, None, cfg)
+        R.count("receiver_types[%s]" % cfg)
+
+
 # --------------------------------------------------------------------------- registry metadata
 NOT_APPLICABLE = {}
 WITNESS_PROPS = []
 _TECH = "static analysis over rustc MIR facts: "
 META = {
+    "C09": {"technique": _TECH + "result-sign path summaries of the transmitters; pending-error exploration of the platform send",
+            "note": "trusted: kernel reports a vanished peer as an error; SIGPIPE not raised on SEQPACKET (experiment)"},
+    "C13": {"technique": _TECH + "pending-error exploration of the fragment loop (retry guard, position discipline), shape check of downsize, interval bound on descriptors",
+            "note": "fault patterns are not executed; arithmetic of fragment sizes is not decided"},
+    "C02": {"technique": _TECH + "provenance of transmission descriptors to the per-message socketpair, dominance/ordering of list operations, call counting",
+            "note": "trusted: kernel SEQPACKET FIFO and packet boundaries; schedules are not explored"},
     "C10": {"technique": _TECH + "path-sensitive set/restore pairing of O_NONBLOCK, constant-operand and provenance rules on the receive entry points",
             "note": "trusted: poll/recvmsg/fcntl semantics; timing is not decided"},
     "C03": {"technique": _TECH + "path summaries of the error conversions (variant and errno edges vs constructed result), result-sign edges of recvmsg",
